@@ -211,6 +211,40 @@ Proof.
   apply in_map_iff in Hin. destruct Hin as (kv & <- & Hin). apply filter_In in Hin. apply in_map. tauto.
 Qed.
 
+(* the expiry pass at the beginning of a read *)
+Lemma wf_dt now s : wf s -> wf (delete_timeout now s).
+Proof. apply wf_filter. Qed.
+
+Lemma dt_find_none X now s : find X s = None -> find X (delete_timeout now s) = None.
+Proof. apply find_filter_none. Qed.
+
+Lemma dt_find_young X now s x : wf s -> find X s = Some x -> (x_create x + 60000 <? now) = false ->
+  find X (delete_timeout now s) = Some x.
+Proof.
+  intros Hwf Hf Hy. unfold delete_timeout. rewrite (find_filter_some _ _ _ _ Hwf Hf). cbn [snd]. now rewrite Hy.
+Qed.
+
+Lemma dt_find_some_inv X now s x : wf s -> find X (delete_timeout now s) = Some x -> find X s = Some x.
+Proof.
+  intros Hwf H. destruct (find X s) as [y|] eqn:Hy.
+  - unfold delete_timeout in H. rewrite (find_filter_some _ _ _ _ Hwf Hy) in H.
+    destruct (negb _); [exact H|discriminate].
+  - rewrite (dt_find_none X now s Hy) in H. discriminate.
+Qed.
+
+Lemma dt_find_old X now s x : wf s -> find X s = Some x -> (x_create x + 60000 <? now) = true ->
+  find X (delete_timeout now s) = None.
+Proof.
+  intros Hwf Hf Hy. unfold delete_timeout. rewrite (find_filter_some _ _ _ _ Hwf Hf). cbn [snd]. now rewrite Hy.
+Qed.
+
+Lemma dt_idem now s : delete_timeout now (delete_timeout now s) = delete_timeout now s.
+Proof.
+  unfold delete_timeout. induction s as [|kv s IH]; cbn [filter]; auto.
+  destruct (negb (x_create (snd kv) + 60000 <? now)) eqn:E; cbn [filter]; [rewrite E, IH|]; auto.
+Qed.
+
+
 (* ---------------- supplementary / housekeeping ---------------- *)
 Definition refresh (now : N) (x : xfer) : xfer :=
   if x_update x + 5000 <? now
@@ -460,6 +494,14 @@ Qed.
 
 End Transfer.
 
+Lemma dt_pending X n bodies now t1 p1 seen upd s : pending X n bodies t1 p1 seen upd s -> now <= t1 + 60000 ->
+  pending X n bodies t1 p1 seen upd (delete_timeout now s).
+Proof.
+  intros (Hwf & x & Hf & Hs & Hc & Hu & Hp) Hn. split. now apply wf_dt. exists x. split; [|auto].
+  apply dt_find_young; auto. rewrite Hc. apply N.ltb_ge. lia.
+Qed.
+
+
 (* ---------------- runs ---------------- *)
 Lemma run_app s l1 l2 :
   run s (l1 ++ l2) = let '(s1, o1) := run s l1 in let '(s2, o2) := run s1 l2 in (s2, o1 ++ o2).
@@ -497,8 +539,17 @@ Qed.
 Lemma wf_step now s e : wf s -> wf (fst (step now s e)).
 Proof.
   intros H. destruct e as [m|]; cbn [step].
-  - pose proof (wf_complete_pack now s m H). destruct (complete_pack now s m). exact H0.
+  - pose proof (wf_complete_pack now _ m (wf_dt now s H)). destruct (complete_pack now (delete_timeout now s) m). exact H0.
   - pose proof (wf_housekeeping now s H). destruct (housekeeping now s). exact H0.
+Qed.
+
+(* the expiry pass is part of every event: running it once more before the event changes nothing *)
+Lemma step_dt now s e : step now (delete_timeout now s) e = step now s e.
+Proof.
+  destruct e as [m|]; cbn [step]. now rewrite dt_idem.
+  unfold housekeeping. destruct s as [|kv s]. reflexivity.
+  destruct (delete_timeout now (kv :: s)) as [|kv' s'] eqn:E. reflexivity.
+  rewrite <- E, dt_idem. reflexivity.
 Qed.
 
 Lemma wf_run s l : wf s -> wf (fst (run s l)).
@@ -520,12 +571,13 @@ Proof.
   assert (Hstep : find X (fst (step t s e)) = None /\
                   completions_from k0 X [snd (step t s e)] = [] /\ rereqs_from k0 X [snd (step t s e)] = []).
   { destruct e as [m|]; cbn [step no_start] in *.
-    - destruct (N.eqb_spec (m_sum m) 0) as [H0|H0].
+    - pose proof (dt_find_none X t s Hf) as Hf'. set (s' := delete_timeout t s) in *.
+      destruct (N.eqb_spec (m_sum m) 0) as [H0|H0].
       + rewrite complete_pack_eq. replace (m_sum m =? 0) with true by lia. cbn. auto.
       + destruct (N.eq_dec (m_id m) X) as [Hid|Hid].
-        * rewrite (cp_absent X t s m Hf Hid (He Hid H0)). cbn. auto.
-        * destruct (cp_foreign X t s m (or_intror Hid)) as [Hfind Hout].
-          destruct (complete_pack t s m) as [s1 [b|]]; cbn [fst snd completions_from rereqs_from] in *.
+        * rewrite (cp_absent X t s' m Hf' Hid (He Hid H0)). cbn. auto.
+        * destruct (cp_foreign X t s' m (or_intror Hid)) as [Hfind Hout].
+          destruct (complete_pack t s' m) as [s1 [b|]]; cbn [fst snd completions_from rereqs_from] in *.
           replace (m_id m =? X) with false by lia. rewrite Hfind. auto. rewrite Hfind. auto.
     - pose proof (housekeeping_find t s X Hwf) as H1. pose proof (housekeeping_rr t s X Hwf) as H2.
       rewrite Hf in H1, H2. destruct (housekeeping t s) as [s1 rrs]. cbn [fst snd rereqs_from completions_from] in *.
@@ -584,6 +636,7 @@ Proof.
   - apply Forall_cons_iff in Hall. destruct Hall as [[Ht He] Hall]. cbn [fst snd] in Ht, He.
     destruct e as [m|].
     + cbn [ev_ok] in He. cbn [step]. cbn [numbers] in Hnc.
+      apply (dt_pending X n bodies t) in Hp; [|exact Ht]. set (s' := delete_timeout t s) in *. clearbody s'. clear s. rename s' into s.
       destruct He as [Hf|[[Hg H1]|Hb]].
       * (* foreign *)
         rewrite (foreign_not_accepted m Hf) in *.
@@ -642,6 +695,7 @@ Theorem state_after s0 t1 p1 rest :
 Proof.
   intros Hwf Hg H1 Hall Hnc. cbn [run step numbers] in *. rewrite (good_accepted p1 Hg), H1 in Hnc.
   rewrite (good_accepted p1 Hg), H1.
+  apply (wf_dt t1) in Hwf. set (s0' := delete_timeout t1 s0) in *. clearbody s0'. clear s0. rename s0' into s0.
   destruct (cp_first X n bodies Hlen Hne Hn1 t1 s0 p1 Hwf Hg H1) as [(Hc & _)|(Hc & Ho & Hp)].
   { exfalso. apply Hnc. eapply covers_mono; [|exact Hc]. intros k [<-|[]]. now left. }
   destruct (complete_pack t1 s0 p1) as [s1 r]. cbn [fst snd] in *. subst r.
@@ -681,7 +735,8 @@ Proof.
   - (* packet 1 alone completes: n = 1 *)
     cbn [app] in Hsplit. injection Hsplit as <- <- <-.
     cbn [app numbers] in Hc. rewrite (good_accepted p1 Hg), H1 in Hc.
-    cbn [run step]. destruct (cp_first X n bodies Hlen Hne Hn1 t1 s0 p1 Hwf Hg H1) as [(_ & Ho & Hf & Hwf1)|(Hn & _)];
+    cbn [run step]. apply (wf_dt t1) in Hwf. set (s0' := delete_timeout t1 s0) in *. clearbody s0'. clear s0. rename s0' into s0.
+    destruct (cp_first X n bodies Hlen Hne Hn1 t1 s0 p1 Hwf Hg H1) as [(_ & Ho & Hf & Hwf1)|(Hn & _)];
       [|contradiction].
     destruct (complete_pack t1 s0 p1) as [s1 r]. cbn [fst snd] in *. subst r.
     pose proof (completions_after_absent s1 rest 1%nat Hwf1 Hf (Hok2 _ Hall)) as Hrest.
@@ -707,6 +762,7 @@ Proof.
     pose proof (run_length s0 ((t1, EvMsg p1) :: l1)) as Hlen1.
     destruct (run s0 ((t1, EvMsg p1) :: l1)) as [s1 o1]. cbn [fst snd] in *.
     cbn [app run step].
+    apply (dt_pending X n bodies t) in Hp1; [|exact Ht]. set (s1' := delete_timeout t s1) in *. clearbody s1'. clear s1. rename s1' into s1.
     destruct (cp_next X n bodies Hlen Hne Hn1 t s1 m t1 p1 _ _ Hp1 Hgm Hm1) as [(_ & Ho & Hf & Hwf2)|(Hn & _)].
     2:{ exfalso. apply Hn. eapply covers_ext; [|exact Hc]. intros k. rewrite in_app_iff. cbn [In]. tauto. }
     destruct (complete_pack t s1 m) as [s2 r]. cbn [fst snd] in *. subst r.
